@@ -59,7 +59,7 @@ def jobs(families, profiles, quick, thorough, variants=None, mode="lockstep"):
 
 
 STRUCT = ["conflict_flat", "conflict_ortho", "order_rows", "nest2_mixed", "nest3"]
-COMMON_FAMS = ["ids_mixed_none", "ids_mixed_always", "ids_mixed_shallow", "conflict_flat", "conflict_ortho", "order_rows", "nest2_mixed", "nest3", "nest_inactive", "noevent", "exit_points",
+COMMON_FAMS = ["ids_mixed_none", "ids_mixed_always", "ids_mixed_shallow", "conflict_flat", "conflict_ortho", "order_rows", "nest2_mixed", "nest3", "nest3_deep", "nest_inactive", "noevent", "exit_points",
                "history_none", "history_always", "history_shallow", "queue_flat", "queue_nested", "blocking", "flags",
                "completion_chain"]
 
@@ -79,7 +79,7 @@ PROPS = {
                 "configuration after each op; non-trivial = at least one external transition was taken; distinct = full-trace hash",
     },
     "C03": {
-        "jobs": jobs(["conflict_ortho", "nest2_mixed", "nest3", "nest_inactive", "fork_entry", "exit_points", "history_always", "flags",
+        "jobs": jobs(["conflict_ortho", "nest2_mixed", "nest3", "nest3_deep", "nest_inactive", "fork_entry", "exit_points", "history_always", "flags",
                       "completion_chain", "ids_mixed_none", "ids_mixed_shallow"], ["lifecycle"], 800, 40000, variants=ALLV)
                 + jobs(["queue_nested", "nest2_mixed"], ["queue"], 600, 30000, variants=ALLV)
                 + jobs(["nest2_mixed"], ["reentrant"], 300, 3000, variants=["B", "M"]),
@@ -106,14 +106,14 @@ PROPS = {
                 "non-trivial = a deferred occurrence was observed pending at a quiescent point; distinct = full-trace hash",
     },
     "C06": {
-        "jobs": jobs(["conflict_ortho", "nest2_mixed", "nest3", "noevent"], ["plain"], 1500, 60000, variants=ALLV),
+        "jobs": jobs(["conflict_ortho", "nest2_mixed", "nest3", "nest3_deep", "noevent", "exit_points"], ["plain"], 1500, 60000, variants=ALLV),
         "nontrivial": ["no_transition"],
         "rule": "one external process_event at a time on a quiescent machine (no posts, no throws), independent guard vectors; lockstep "
                 "compares per-region order, return code and every no_transition call; non-trivial = at least one no_transition call "
                 "occurred in the run; distinct = full-trace hash",
     },
     "C07": {
-        "jobs": jobs(["nest2_mixed", "nest3", "nest_inactive", "ids_mixed_none"], ["plain", "posts"], 1000, 50000, variants=ALLV),
+        "jobs": jobs(["nest2_mixed", "nest3", "nest3_deep", "nest_inactive", "ids_mixed_none"], ["plain", "posts"], 1000, 50000, variants=ALLV),
         "nontrivial": ["nested"],
         "rule": "plans on machines of depth 2-3; non-trivial = a dispatch invoked behaviours of >= 2 nesting levels; distinct = full-trace hash",
     },
@@ -182,7 +182,8 @@ PROPS = {
                 "the documented grammar are fed to front::puml::detail::parse_row and the five fields compared",
     },
     "C15": {
-        "jobs": jobs(["nest2_mixed", "exit_points", "history_always", "defer_basic", "queue_flat", "queue_nested"], ["fork"], 800, 40000, variants=ALLV),
+        "jobs": jobs(["nest2_mixed", "exit_points", "history_always", "history_shallow", "ids_mixed_shallow", "ids_mixed_always", "serial_nested",
+                      "defer_basic", "queue_flat", "queue_nested"], ["fork"], 800, 40000, variants=ALLV),
         "nontrivial": ["fork"],
         "rule": "plans with copy-construct (from const&), copy-assign, move-construct / move-assign (backmp11), destroy, with queued and "
                 "deferred events pending, then different continuations on up to 3 replicas; every behaviour record carries the replica "
@@ -195,7 +196,7 @@ PROPS = {
                 "replica), load into a fresh machine, continue; active ids, history memory and do_serialize data compared after every op",
     },
     "C17": {
-        "jobs": jobs(["flags", "blocking", "nest_inactive"], ["lifecycle", "observe"], 800, 40000, variants=ALLV)
+        "jobs": jobs(["flags", "blocking", "nest_inactive", "nest3_deep"], ["lifecycle", "observe"], 800, 40000, variants=ALLV)
                 + jobs(["flags"], ["observe"], 500, 20000, variants=["B+p3", "M+p3"]),
         "nontrivial": ["flag"],
         "rule": "is_flag_active<F>() and <F,AND> for every flag on every machine level after every op (and, through the observed active "
